@@ -30,7 +30,9 @@ Refs(ev) == [q \in DOMAIN ev.refs |-> <<ev.refs[q][1], ev.refs[q][2]>>]
 HandedParams == "handed" \in DOMAIN Ev.ret =>
                    /\ Ev.ret.handed = Ev.ret.params
                    /\ (Ev.ret.trial => /\ Ev.ret.reads = [q \in 1..Len(Ev.ret.params) |-> q - 1]
-                                        /\ Ev.ret.scratch >= Len(Ev.ret.params))
+                                        /\ Ev.ret.scratch >= Len(Ev.ret.params)
+                                        \* the body that was built is the body that runs: its loop is a loop, its block a block
+                                        /\ Ev.ret.shape = <<"Loop", "BrIf0", "End", "Block", "BrIf0", "End">>)
 
 TReplaceImported ==
   /\ IsEvent("replace_imported") /\ HandedParams
